@@ -576,6 +576,22 @@ Theorem C13_options_same_written_tr_env_linked :
                 corigin c1 = corigin c2 /\ cmat c1 = cmat c2.
 Proof. intros Tr P act. exact (options_same_written_tr_env act). Qed.
 
+(* the last semantic hypothesis of the transformation theorem, "D_i is a model of
+   the final cell table": pot_fill with transformations keeps the table acyclic
+   ([jinv]: keys below the counter, cached keys present, a rank exists), so for
+   EVERY surface environment the final state has a denotation of its cells and
+   it is the only one on the cells of the table *)
+From T4V Require Import C13.ProofsTr4.
+Theorem C13_pot_fill_tr_acyclic : forall (Tr : Type) (tr_eqb : Tr -> Tr -> bool) fd fg dic0 tinfo fuel key st ks st',
+  jinv st -> pot_fill_tr tr_eqb fuel fd fg dic0 tinfo key st = Ok (ks, st') -> jinv st' /\ grows st st'.
+Proof. intros Tr tr_eqb. exact (pot_fill_tr_j tr_eqb). Qed.
+
+Theorem C13_final_state_model : forall (Tr P : Type) (act : Tr -> P -> P) (st : @tstate Tr) (senv : Z -> P -> bool),
+  jinv st ->
+  exists D, cells_ok senv D st /\
+    forall D', cells_ok senv D' st -> forall k, lookup k (tcells st) <> None -> forall p, D' k p = D k p.
+Proof. intros Tr P act. exact (final_state_model act). Qed.
+
 (* the hypotheses of that theorem for the cells pot_fill_tr returns: both runs
    realise the items of [spec], and two surface environments that agree on the
    parsed cells give every item the same denotation *)
@@ -696,8 +712,8 @@ Print Assumptions C13_family_inline.
 
 (* pot_fill under the inline flags, with and without transformations; both stages of the options *)
 Theorem C13_family_fill :
-  ltac:(let t := type of (conj C13_fill_geometry_den (conj C13_cell_transform_den (conj C13_fill_geometry_den_tr (conj C13_pot_fill_tr_spec (conj C13_fill_tr_two_runs (conj C13_fill_flags_lockstep (conj C13_options_same_geometry (conj C13_senv_of_ok (conj C13_pot_fill_tr_inv C13_fill_tr_items))))))))) in exact t).
-Proof. exact (conj C13_fill_geometry_den (conj C13_cell_transform_den (conj C13_fill_geometry_den_tr (conj C13_pot_fill_tr_spec (conj C13_fill_tr_two_runs (conj C13_fill_flags_lockstep (conj C13_options_same_geometry (conj C13_senv_of_ok (conj C13_pot_fill_tr_inv C13_fill_tr_items))))))))). Qed.
+  ltac:(let t := type of (conj C13_fill_geometry_den (conj C13_cell_transform_den (conj C13_fill_geometry_den_tr (conj C13_pot_fill_tr_spec (conj C13_fill_tr_two_runs (conj C13_fill_flags_lockstep (conj C13_options_same_geometry (conj C13_senv_of_ok (conj C13_pot_fill_tr_inv (conj C13_pot_fill_tr_acyclic (conj C13_final_state_model C13_fill_tr_items))))))))))) in exact t).
+Proof. exact (conj C13_fill_geometry_den (conj C13_cell_transform_den (conj C13_fill_geometry_den_tr (conj C13_pot_fill_tr_spec (conj C13_fill_tr_two_runs (conj C13_fill_flags_lockstep (conj C13_options_same_geometry (conj C13_senv_of_ok (conj C13_pot_fill_tr_inv (conj C13_pot_fill_tr_acyclic (conj C13_final_state_model C13_fill_tr_items))))))))))). Qed.
 Print Assumptions C13_family_fill.
 
 (* composed with C01 (conversion loop, prune, written): the property for two option vectors *)
